@@ -500,3 +500,8 @@ pub fn process_grammar<P: AsRef<Path>>(grammar: P) -> Result<()> {
     Settings::new().process_grammar(grammar.as_ref())?;
     Ok(())
 }
+
+// Verification hook: compiled only by `cargo kani` (cfg(kani)); see /verif/MANIFEST.json.
+#[cfg(kani)]
+#[path = "/verif/units/kx/compiler/settings.rs"]
+mod verif_kani_settings;
